@@ -62,7 +62,7 @@ def replay(u, obs, prop, seed):
     if not rp:
         # default: the driver's test of the same name as the unit (alias/overlap variants share the base function's test)
         import re as _re
-        base = _re.sub(r'_(ovl|wu|wv|uv|wuv|ds|an|ad|safety|int)$', '', u['name'])
+        base = _re.sub(r'_(ovl|wu|wv|uv|wuv|ds|an|ad|ra|rb|ab|rab|safety|int|pow2)$', '', u['name'])
         rp = {'mpz_inp_raw': 'raw', 'mpz_inp_raw_p': 'raw', 'mpz_inp_raw_m': 'raw', 'mpz_out_raw': 'raw', 'mpz_out_raw_m': 'raw'}.get(base, base)
     if rp:
         tmp = tempfile.mkdtemp(prefix='mpir-replay.')
@@ -76,6 +76,8 @@ def replay(u, obs, prop, seed):
                     try:
                         p = subprocess.run(cmd, capture_output=True, text=True, timeout=300)
                         out = p.stdout[-6000:]
+                        if p.returncode < 0 or p.returncode > 3:
+                            out += '\nFAIL %s: the native run on the real code terminated abnormally (status %d: %s) - memory corruption or abort inside the library; reproduce with the command above' % (fn, p.returncode, (p.stderr or '').strip()[-200:])
                     except subprocess.TimeoutExpired:
                         out = 'TIMEOUT'
                         p = None
@@ -117,7 +119,7 @@ def structural(u, reason, prop, seed):
     d = os.path.join(VERIF, 'replay', 'out')
     os.makedirs(d, exist_ok=True)
     path = os.path.join(d, '%s.%s.structural.replay.txt' % (prop, u['name']))
-    base = _re.sub(r'_(ovl|wu|wv|uv|wuv|ds|an|ad|safety|int)$', '', u['name'])
+    base = _re.sub(r'_(ovl|wu|wv|uv|wuv|ds|an|ad|ra|rb|ab|rab|safety|int|pow2)$', '', u['name'])
     fn = u.get('replay') or {'mpz_inp_raw': 'raw', 'mpz_inp_raw_p': 'raw', 'mpz_inp_raw_m': 'raw', 'mpz_out_raw': 'raw', 'mpz_out_raw_m': 'raw'}.get(base, base)
     lines = ['property: %s' % prop, 'unit: %s' % u['name'], 'source: %s' % u['source'],
              'obligation: the loop structure of the function under contract changed, so its inductive invariants no longer attach:',
@@ -134,6 +136,9 @@ def structural(u, reason, prop, seed):
                 p = subprocess.run(cmd, capture_output=True, text=True, timeout=300)
                 out = p.stdout[-6000:]
                 rc = p.returncode
+                if rc < 0 or rc > 3:
+                    out += '\nFAIL %s: the native run on the real code terminated abnormally (status %d: %s) - memory corruption or abort inside the library' % (fn, rc, (p.stderr or '').strip()[-200:])
+                    rc = 1
             except subprocess.TimeoutExpired:
                 out, rc = 'TIMEOUT', 2
             lines += ['native evaluation of the contract on the real code (gcc-built %s + /verif/replay/native.c):' % u['source'],
